@@ -132,7 +132,10 @@ class _FunctionCall(object):
             # this reconstruction is quite costly. I wonder whether it's a
             # problem though.
 
-            _type_info = ctx.descriptor.in_message._type_info
+            # the flat type info has the inherited fields as well, in the order
+            # get_serialization_instance() expects them
+            in_message = ctx.descriptor.in_message
+            _type_info = in_message.get_flat_type_info(in_message)
             ctx.in_object = [None] * len(_type_info)
             for i in range(len(args)):
                 ctx.in_object[i] = args[i]
